@@ -286,6 +286,7 @@ type c12Op struct {
 	Args  []string
 	Stdin string
 	Conf  []string
+	Then  []c12Op // further commands on the same index file: a compound operation (one state transition)
 }
 
 type c12World struct {
@@ -333,6 +334,7 @@ func c12BuildWorld(c *fw.Ctx, of string) *c12World {
 	wr("d/b", "file d/b\n", old.Add(time.Hour))
 	wr("m0", "mtime zero\n", time.Unix(0, 0))
 	wr("m1", "mtime one\n", time.Unix(1, 0))
+	wr("m2", "mtime beyond 2^31\n", time.Unix(0x90000000, 0)) // seconds that do not fit a signed 32-bit field
 	wr("n", "to be added later\n", old)
 	wr("c", "resolved\n", old)
 	os.Chmod(filepath.Join(dir, "d/b"), 0o755)
@@ -342,10 +344,48 @@ func c12BuildWorld(c *fw.Ctx, of string) *c12World {
 	b := w.blob
 	info := func(lines ...string) string { return strings.Join(lines, "\n") + "\n" }
 	shared := strings.Repeat("p", 130)
+	// every residue of the name length modulo 8 (entry padding), without and with the extended-flags word
+	var lenLines, lenSkip []string
+	for l := 1; l <= 8; l++ {
+		lenLines = append(lenLines, "100644 "+b[l%4]+" 0\t"+strings.Repeat("k", l), "100644 "+b[(l+1)%4]+" 0\t"+strings.Repeat("s", l))
+		lenSkip = append(lenSkip, strings.Repeat("s", l))
+	}
+	// every non-empty subset of the three conflict stages, one path each, a different mode per stage
+	stageMode := [4]string{"", "100644", "100755", "120000"}
+	var subsetLines, subsetPaths []string
+	for m := 1; m <= 7; m++ {
+		p := fmt.Sprintf("u%d", m)
+		subsetPaths = append(subsetPaths, p)
+		for st := 1; st <= 3; st++ {
+			if m&(1<<(st-1)) != 0 {
+				subsetLines = append(subsetLines, fmt.Sprintf("%s %s %d\t%s", stageMode[st], b[(m+st)%4], st, p))
+			}
+		}
+	}
+	// an index well beyond one 4 KiB read buffer, with nested directories (many TREE entries after write-tree)
+	var manyLines []string
+	for i := 0; i < 300; i++ {
+		manyLines = append(manyLines, fmt.Sprintf("100644 %s 0\tM/%02d/%d/f%03d", b[i%4], i%12, i%3, i))
+	}
+	hook := filepath.Join(c.TempDir("c12hook-"+of), "fsmonitor-hook")
+	if err := os.WriteFile(hook, []byte("#!/bin/sh\nprintf 'token-1\\0/\\0'\n"), 0o755); err != nil {
+		fw.Abort("%v", err)
+	}
+	conflictAll := c12Op{Name: "conflicts: every stage subset u1..u7", Args: []string{"update-index", "--index-info"}, Stdin: info(subsetLines...)}
+	resolveAll := c12Op{Name: "resolve u1..u7 (rm --cached)", Args: append([]string{"rm", "--cached", "-q", "--ignore-unmatch"}, subsetPaths...)}
 	w.ops = []c12Op{
+		// compound operations first: the states they reach are checked at depth 1, whatever the time budget
+		{Name: "conflicts u1..u7 then resolve all", Args: conflictAll.Args, Stdin: conflictAll.Stdin, Then: []c12Op{resolveAll}},
+		{Name: "name lengths 1-8 plain and skip-worktree", Args: []string{"update-index", "--index-info"}, Stdin: info(lenLines...),
+			Then: []c12Op{{Args: append([]string{"update-index", "--skip-worktree"}, lenSkip...)}}},
+		conflictAll,
+		resolveAll,
+		{Name: "300 entries in nested directories", Args: []string{"update-index", "--index-info"}, Stdin: info(manyLines...)},
+		{Name: "untracked cache", Args: []string{"update-index", "--force-untracked-cache"}, Then: []c12Op{{Args: []string{"status", "--porcelain"}}}},
+		{Name: "fsmonitor extension", Args: []string{"update-index", "--fsmonitor"}, Conf: []string{"core.fsmonitor=" + hook, "core.fsmonitorHookVersion=2"}},
 		{Name: "add a", Args: []string{"add", "a"}},
 		{Name: "add d/b", Args: []string{"add", "d/b"}},
-		{Name: "add m0 m1", Args: []string{"add", "m0", "m1"}},
+		{Name: "add m0 m1 m2", Args: []string{"add", "m0", "m1", "m2"}},
 		{Name: "add -N n", Args: []string{"add", "-N", "n"}},
 		{Name: "rm --cached a", Args: []string{"rm", "--cached", "-q", "--ignore-unmatch", "a"}},
 		{Name: "skip-worktree a", Args: []string{"update-index", "--skip-worktree", "a"}},
@@ -569,10 +609,17 @@ func (w *c12World) checkGitIndex(c *fw.Ctx, b []byte, path string, seqNames []st
 			f := strings.Fields(string(rec[:tab]))
 			wantRU[string(rec[tab+1:])+"\x00"+f[2]] = f[1]
 		}
+		ruPaths := map[string]bool{}
+		for k := range wantRU {
+			ruPaths[k[:strings.IndexByte(k, 0)]] = true
+		}
 		ruOf := func(x *index.Index) map[string]string {
 			m := map[string]string{}
 			if x.ResolveUndo == nil {
 				return m
+			}
+			if len(x.ResolveUndo.Entries) != len(ruPaths) {
+				m["\x00entries"] = strconv.Itoa(len(x.ResolveUndo.Entries)) // one record per path, as git lists them
 			}
 			for _, e := range x.ResolveUndo.Entries {
 				for s, h := range e.Stages {
@@ -614,6 +661,18 @@ func (w *c12World) checkGitIndex(c *fw.Ctx, b []byte, path string, seqNames []st
 		for range wantRU {
 			nStages++
 		}
+		for p := range ruPaths {
+			shape := ""
+			for st := 1; st <= 3; st++ {
+				if _, ok := wantRU[p+"\x00"+strconv.Itoa(st)]; ok {
+					shape += strconv.Itoa(st)
+				}
+			}
+			c.Class("git->go-git/REUC-stages-" + shape)
+		}
+		if len(ruPaths) > 1 {
+			c.Class("git->go-git/REUC-several-paths")
+		}
 		if wrong > 0 {
 			kind := "wrong"
 			if differ || wrong < reps {
@@ -621,6 +680,32 @@ func (w *c12World) checkGitIndex(c *fw.Ctx, b []byte, path string, seqNames []st
 			}
 			fail("decode/REUC-"+kind, fmt.Sprintf("resolve-undo stage hashes differ from `git ls-files --resolve-undo` in %d of %d decodings of the same bytes (git: %d stage records)", wrong, reps, nStages),
 				map[string]any{"git_resolve_undo": fmt.Sprint(wantRU), "one_decoding": fmt.Sprint(first)})
+		}
+	}
+	// the same file with a null trailer is what git >= 2.40 writes under index.skipHash (git 2.39 cannot
+	// write it, but reads it: checked once per world in c12NullTrailerConformance): same entries and
+	// extensions, with and without the WithSkipHash option
+	nb := append([]byte(nil), b...)
+	for i := len(nb) - hs; i < len(nb); i++ {
+		nb[i] = 0
+	}
+	for oi, opt := range [][]index.Option{nil, {index.WithSkipHash()}} {
+		var x *index.Index
+		var derr error
+		if pn, what := ccGuard(func() {
+			x = &index.Index{}
+			derr = index.NewDecoder(bytes.NewReader(nb), ghash.New(c10CryptoHash(hs)), opt...).Decode(x)
+		}); pn {
+			derr = fmt.Errorf("PANIC %s", what)
+		}
+		mode := []string{"default", "WithSkipHash"}[oi]
+		if derr != nil {
+			fail("decode/null-trailer-error/"+mode+"/"+feat, fmt.Sprintf("the same index with a null (skipped) checksum does not decode (%s): %v", mode, derr), nil)
+			continue
+		}
+		if d := c12Diff(c12FromGoGit(x), want); d != "" || (x.Cache != nil) != (ix.Cache != nil) || (x.ResolveUndo != nil) != (ix.ResolveUndo != nil) || (x.EndOfIndexEntry != nil) != (ix.EndOfIndexEntry != nil) ||
+			(x.Cache != nil && len(x.Cache.Entries) != len(ix.Cache.Entries)) || (x.ResolveUndo != nil && len(x.ResolveUndo.Entries) != len(ix.ResolveUndo.Entries)) {
+			fail("decode/null-trailer-differs/"+mode+"/"+feat, fmt.Sprintf("the same index with a null (skipped) checksum decodes differently (%s): %s", mode, d), nil)
 		}
 	}
 	// decode twice gives equal values (entries)
@@ -706,6 +791,16 @@ func (w *c12World) explore(c *fw.Ctx, maxLen int, tailOps map[int]bool) {
 				in = []byte(op.Stdin)
 			}
 			res := w.git(cd.path, op.Conf...).RunIn(in, op.Args...)
+			for _, t := range op.Then {
+				if !res.OK() {
+					break
+				}
+				var tin []byte
+				if t.Stdin != "" {
+					tin = []byte(t.Stdin)
+				}
+				res = w.git(cd.path, append(append([]string(nil), op.Conf...), t.Conf...)...).RunIn(tin, t.Args...)
+			}
 			b, err := os.ReadFile(cd.path)
 			if err != nil || !res.OK() || bytes.Equal(b, before) {
 				os.Remove(cd.path)
@@ -764,11 +859,11 @@ func c12Specs(names []string) []c12Spec {
 func (w *c12World) checkGoGitIndex(c *fw.Ctx, version uint32, specs []c12Spec, path string) {
 	hs := w.hs
 	ix := &index.Index{Version: version}
-	times := []time.Time{{}, time.Unix(1, 0), time.Unix(1700000000, 123456789), time.Unix(0, 5)}
+	times := []time.Time{{}, time.Unix(1, 0), time.Unix(1700000000, 123456789), time.Unix(0, 5), time.Unix(0xfffffff0, 999999999)}
 	modes := []filemode.FileMode{filemode.Regular, filemode.Executable, filemode.Symlink, filemode.Submodule}
 	for i, s := range specs {
 		h, _ := plumbing.FromHex(w.blob[i%4])
-		ix.Entries = append(ix.Entries, &index.Entry{Hash: h, Name: s.Name, CreatedAt: times[(i+1)%4], ModifiedAt: times[(i+len(s.Name))%4], Dev: uint32(i + 1), Inode: 0xfffffff0 + uint32(i),
+		ix.Entries = append(ix.Entries, &index.Entry{Hash: h, Name: s.Name, CreatedAt: times[(i+1)%5], ModifiedAt: times[(i+len(s.Name))%5], Dev: uint32(i + 1), Inode: 0xfffffff0 + uint32(i%8),
 			Mode: modes[(i+s.Stage)%4], UID: 1000, GID: uint32(0x80000000), Size: uint32(len(s.Name)), Stage: index.Stage(s.Stage), SkipWorktree: s.Skip, IntentToAdd: s.ITA})
 	}
 	want := c12FromGoGit(ix)
@@ -839,8 +934,48 @@ func (w *c12World) checkGoGitIndex(c *fw.Ctx, version uint32, specs []c12Spec, p
 	}
 }
 
+func c12WideSpecs() []c12Spec {
+	var out []c12Spec
+	for l := 9; l >= 1; l-- { // fed unsorted
+		for fi, ch := range []string{"k", "s", "n", "b"} {
+			out = append(out, c12Spec{strings.Repeat(ch, l), 0, fi == 1 || fi == 3, fi == 2 || fi == 3})
+		}
+	}
+	out = append(out, c12Spec{"w", 3, false, false}, c12Spec{"w", 1, false, false}, c12Spec{"w", 2, false, false},
+		c12Spec{c12LongName(4094, "s"), 0, true, false}, c12Spec{c12LongName(4095, "t"), 0, false, true}, c12Spec{c12LongName(4097, "u"), 0, true, true},
+		c12Spec{"w.x", 0, false, false}, c12Spec{"w/x", 0, false, false})
+	return out
+}
+
+// nullTrailerConformance: git itself reads an index whose trailer is null exactly like the checksummed file.
+func (w *c12World) nullTrailerConformance(c *fw.Ctx) {
+	dir := c.TempDir("c12null-" + w.of)
+	p := filepath.Join(dir, "i")
+	w.git(p).MustRun("add", "a", "d/b")
+	w.git(p).MustRun("write-tree")
+	a := w.git(p).MustRun("ls-files", "--stage", "--debug", "-z")
+	b, err := os.ReadFile(p)
+	if err != nil {
+		fw.Abort("%v", err)
+	}
+	for i := len(b) - w.hs; i < len(b); i++ {
+		b[i] = 0
+	}
+	if err := os.WriteFile(p, b, 0o644); err != nil {
+		fw.Abort("%v", err)
+	}
+	r := w.git(p).Run("ls-files", "--stage", "--debug", "-z")
+	if !r.OK() || !bytes.Equal(r.Out, a.Out) {
+		fw.Abort("git does not read a null-trailer index like the checksummed one: %s", r.Err)
+	}
+	c.TracesValidated(1)
+}
+
 func c12ShortSpecs(specs []c12Spec) string {
 	var s []string
+	if len(specs) > 8 {
+		return fmt.Sprintf("wide index of %d entries", len(specs))
+	}
 	for _, x := range specs {
 		n := x.Name
 		if len(n) > 12 {
@@ -865,14 +1000,30 @@ func runC12(c *fw.Ctx) {
 	c.Bound("git_ops_extra_tail", "one more operation from {index-version 2|3|4, eoie+ieot rewrite, write-tree}")
 	c.Bound("gogit_index_max_entries", maxEntries)
 	c.Bound("versions", []int{2, 3, 4})
-	c.SetRule("git->go-git: all sequences of git index operations (add, add -N, rm --cached, skip-worktree, assume-unchanged, index-version 2/3/4, 3-stage and 2-stage conflicts via --index-info, resolve, names of 4094/4095/4096/4100 bytes, 130-byte shared prefixes and a 200-byte strip, exec/symlink/gitlink modes, write-tree, EOIE+IEOT rewrite) of the stated length plus one format-changing tail operation, each distinct index file compared entry by entry with `git ls-files --stage --debug`, `--resolve-undo`, and a git-validated plain parse for TREE/EOIE; go-git->git: all sets of up to N (name, stage, flags) entries over 9 names x {stage 0 with none/skip/intent/both, stages 1-3} x versions 2-4 encoded by go-git, read back by git and by go-git; a class is a distinct feature combination (version, long name, stages, extended flags, extensions) per direction")
+	c.SetRule("git->go-git: all sequences of git index operations (add, add -N, rm --cached, skip-worktree, assume-unchanged, index-version 2/3/4, 3-stage and 2-stage conflicts via --index-info, resolve, conflicts over every non-empty stage subset on seven paths with a distinct mode per stage and their resolution (multi-record REUC), names of every length 1-8 with and without the extended-flags word, 300 entries in nested directories, untracked-cache and fsmonitor extensions, an mtime beyond 2^31 s, names of 4094/4095/4096/4100 bytes, 130-byte shared prefixes and a 200-byte strip, exec/symlink/gitlink modes, write-tree, EOIE+IEOT rewrite) of the stated length plus one format-changing tail operation, each distinct index file compared entry by entry with `git ls-files --stage --debug`, `--resolve-undo`, and a git-validated plain parse for TREE/EOIE, and decoded again with a null (skipped) trailer with and without WithSkipHash; go-git->git: all sets of up to N (name, stage, flags) entries over 9 names x {stage 0 with none/skip/intent/both, stages 1-3} x versions 2-4 encoded by go-git, read back by git and by go-git; a class is a distinct feature combination (version, long name, stages, extended flags, extensions) per direction")
 	c.Assume("git 2.39.5 ls-files is the reference; the assume-valid bit has no field in go-git's Entry and is not compared; index.skipHash needs git >= 2.40 and is exercised only through go-git's own round trip; sparse-index (sdir) and split-index (link) are mandatory extensions go-git documents as unsupported")
 
-	worlds := []*c12World{c12BuildWorld(c, "sha1")}
-	if c.Thorough() {
-		worlds = append(worlds, c12BuildWorld(c, "sha256"))
+	// sha256 (32-byte ids change every entry's padding): full depth in thorough, depth 1 (+ tail) in quick
+	worlds := []*c12World{c12BuildWorld(c, "sha1"), c12BuildWorld(c, "sha256")}
+	c.Bound("git_ops_sequence_length_sha256", c.Pick(1, gitLen))
+	c.Bound("gogit_index_max_entries_sha256", c.Pick(1, maxEntries))
+	c.Bound("gogit_wide_index", "one index per version and object format with names of 1-9 bytes x {plain, skip-worktree, intent-to-add, both}, three conflict stages, 4094/4095/4097-byte names with flags")
+	for _, w := range worlds {
+		w.nullTrailerConformance(c)
+	}
+	// first (cheap, and independent of the time budget): one wide index per version and object format with every
+	// name-length residue under every flag combination, stages, long names with flags
+	for _, w := range worlds {
+		dir := c.TempDir("c12wide-" + w.of)
+		wide := c12WideSpecs()
+		for _, v := range []uint32{2, 3, 4} {
+			w.checkGoGitIndex(c, v, wide, filepath.Join(dir, fmt.Sprintf("wide%d", v)))
+		}
 	}
 	for _, w := range worlds {
+		if w.of == "sha256" && !c.Thorough() {
+			continue // after sha1, below
+		}
 		tail := map[int]bool{}
 		for i, o := range w.ops {
 			if strings.HasPrefix(o.Name, "index-version") || strings.HasPrefix(o.Name, "eoie") || o.Name == "write-tree" {
@@ -880,6 +1031,17 @@ func runC12(c *fw.Ctx) {
 			}
 		}
 		w.explore(c, gitLen, tail)
+	}
+
+	if !c.Thorough() {
+		w := worlds[1]
+		tail := map[int]bool{}
+		for i, o := range w.ops {
+			if strings.HasPrefix(o.Name, "index-version") || strings.HasPrefix(o.Name, "eoie") || o.Name == "write-tree" {
+				tail[i] = true
+			}
+		}
+		w.explore(c, 1, tail)
 	}
 
 	// go-git -> git
@@ -895,7 +1057,11 @@ func runC12(c *fw.Ctx) {
 			set []int
 		}
 		var jobs []job
-		for _, sub := range fw.Subsets(len(specs), maxEntries) {
+		me := maxEntries
+		if w.of == "sha256" && !c.Thorough() {
+			me = 1
+		}
+		for _, sub := range fw.Subsets(len(specs), me) {
 			// one (name, stage) once; stage 0 and higher stages of one name never coexist
 			ok := true
 			for i := 0; i < len(sub) && ok; i++ {
